@@ -3,7 +3,7 @@ open Conv
 let names l = List.map ocaml_string l
 let handle case obs =
   match case with
-  | ["cand"; ty; nt; tcp; proto; ha; off; comp] ->
+  | ("cand" | "candx") :: ty :: nt :: tcp :: proto :: ha :: off :: comp :: _ ->
     let ty = z_of_string ty and nt = z_of_string nt and tcp = z_of_string tcp
     and proto = coq_string (unhex proto) and ha = bool_of_tok ha
     and off = z_of_string off and comp = z_of_string comp in
